@@ -184,6 +184,12 @@ func (r *cueRenderer) ty(s *Src, indent string) string {
 	case SEnumI:
 		e, _ := r.tyAttr(s, indent, false)
 		return e
+	case SNullable:
+		saved := r.nullableCtx
+		r.nullableCtx = true
+		e := "null | " + r.ty(s.Elem, indent)
+		r.nullableCtx = saved
+		return e
 	case SArray:
 		return "[...(" + r.ty(s.Elem, indent) + ")]"
 	case SDict:
